@@ -52,9 +52,27 @@ def _pending_lookup(I, self_obj, args, kwargs):
     return req
 
 
+def _pending_contains(I, self_obj, args, kwargs):
+    # the table is a dict keyed by (destination, tag): membership of an arbitrary key is unconstrained
+    I.ctx.emit("pending.contains", None, (args[0],), {})
+    from pyvc.values import SBool
+
+    return SBool(I.ctx.fresh_bool("pending.has"))
+
+
+def _pending_iter(I, self_obj, args, kwargs):
+    # keys of the other requests in flight: none, one or two arbitrary (destination, tag) pairs
+    n = I.ctx.choose(3, "requests in flight: 0 / 1 / 2")
+    keys = [(T.typed_int(t.EmberNodeId).fresh(I, f"other_dest{i}"), T.range(0, 255).fresh(I, f"other_tag{i}")) for i in range(n)]
+    I.ctx.emit("pending.iterate", None, tuple(keys), {})
+    return keys
+
+
 PENDING = ext_class("requests")
 PENDING.methods["new"] = ExtMethod("new", fn=_pending_new)
 PENDING.methods["__getitem__"] = ExtMethod("__getitem__", fn=_pending_lookup)
+PENDING.methods["__contains__"] = ExtMethod("__contains__", fn=_pending_contains)
+PENDING.methods["__iter__"] = ExtMethod("__iter__", fn=_pending_iter)
 
 ASYNC_CM = lambda name: ext_class(  # noqa: E731
     name,
